@@ -92,29 +92,32 @@ class ParserState:
 
         with self.suppress_failures():
             while True:
-                matched = False
-
+                # (WHITESPACE | COMMENT)*: a failed attempt must leave no trace.
                 if whitespace_rule:
+                    self.checkpoint()
                     matched = whitespace_rule.parse(self, children)
                     if matched:
                         some = True
                         pairs.extend(children)
-                        # continue
+                        children.clear()
+                        self.ok()
+                        continue
+                    self.restore()
                     children.clear()
 
                 if comment_rule:
                     self.checkpoint()
-                    matched = comment_rule.parse(self, children) or matched
+                    matched = comment_rule.parse(self, children)
                     if matched:
                         some = True
                         pairs.extend(children)
+                        children.clear()
                         self.ok()
-                    else:
-                        self.restore()
+                        continue
+                    self.restore()
                     children.clear()
 
-                if not matched:
-                    break
+                break
 
         return some
 
